@@ -96,12 +96,17 @@ class CronScenario(Scenario):
         for p in PROJECTS:
             env.with_ctx(lambda: wf_svc.create_workflows(wf),
                          env.default_ctx(project=p))
+        # a public workflow owned by the first project: other projects may
+        # put their own triggers on it
+        pub = wf.replace('wf:', 'pubwf:', 1)
+        env.with_ctx(lambda: wf_svc.create_workflows(pub, scope='public'),
+                     env.default_ctx(project=PROJECTS[0]))
         for t in self.triggers:
             first = ts(t['first']) if t.get('first') is not None else None
 
             def mk(t=t, first=first):
                 return trig_svc.create_cron_trigger(
-                    t['name'], 'wf', {'x': _key(t)},
+                    t['name'], t.get('wf') or 'wf', {'x': _key(t)},
                     {'env': {'who': _key(t)}},
                     pattern=t.get('pattern'), first_time=first,
                     count=t.get('count'), start_time=ts(0))
@@ -317,6 +322,12 @@ def scenarios(tier):
     add('2p-first+pattern-c2-overlap', [TR('t1', first=90, count=2)],
         [(0, 90), (1, 90), (0, 150), (1, 150)], rp=True,
         bound=None if not quick else 3)
+    # a trigger of one project on the public workflow of another: the run
+    # is started on behalf of the trigger's project
+    add('2p-foreign-public-workflow',
+        [dict(TR('t1', 'projB', count=2), wf='pubwf'),
+         dict(TR('t2', 'projA'), wf='pubwf')],
+        [(0, 60), (1, 60), (0, 120)], bound=None)
     add('3p-due-c1-overlap', [TR('t1', count=1)],
         [(0, 60), (1, 60), (2, 60)], rp=True, bound=None)
 
